@@ -66,3 +66,24 @@ Example C01_order_stuck_alternative_needed :
   run_nat LtoR 10 cex_prog = NFaulted NFSigfpe [] /\
   forall fuel', run_nat RtoL fuel' cex_prog = NOutOfFuel \/ run_nat RtoL fuel' cex_prog = NStuckO.
 Proof. exact order_stuck_alternative_needed. Qed.
+
+(* ---- the two engine models agree: VM simulation (VmSim) + native argument order (NatOrder) ---- *)
+From NV Require Import Back.VmSimDefs Back.VmSimMod Back.VmSimFinal Back.BackendsAgree.
+
+(* whenever the reference run ends with output [out] and status [ex], the NanoVM running the compiled bytecode and the
+   native model with gcc's argument order both end with exactly that output and status *)
+Theorem C01_backends_agree : forall pr M fuel out ex,
+  compile_program pr = Some M -> small_program pr -> fuel_small fuel -> depth_ok M ->
+  se_program pr = true -> cc_refuses pr = false -> (forall fuel', run_nat RtoL fuel' pr <> NStuckO) ->
+  run_ref fuel pr = Done out ex ->
+  (exists fv, run_vm fv M = VDone out ex) /\ (exists fn, run_nat RtoL fn pr = NDone out ex).
+Proof. exact backends_agree. Qed.
+Print Assumptions C01_backends_agree.
+
+Theorem C01_backends_agree_on_failed_assert : forall pr M fuel out,
+  compile_program pr = Some M -> small_program pr -> fuel_small fuel -> depth_ok M ->
+  se_program pr = true -> cc_refuses pr = false -> (forall fuel', run_nat RtoL fuel' pr <> NStuckO) ->
+  run_ref fuel pr = Faulted FAssert out ->
+  (exists fv, run_vm fv M = VError EAssert out) /\ (exists fn, run_nat RtoL fn pr = NFaulted NFAssert out).
+Proof. exact backends_agree_assert. Qed.
+Print Assumptions C01_backends_agree_on_failed_assert.
